@@ -168,29 +168,20 @@ class ReedMullerDecoder(BaseBlockDecoder[ReedMullerCodeEncoder]):
                     break
                 temp_r += 1
 
-        # Generate partitions based on Reed-Muller structure
+        # Generate the Reed partitions. Row j of the generator matrix is the monomial over the
+        # evaluation vectors `indices` (orders r, r-1, ..., 1, then the all-ones row), and evaluation
+        # vector i is bit (m-1-i) of the position index. The check sums of that row are the sums of the
+        # received bits over the 2^(m-ell) cosets of the subspace spanned by those bits.
         if m > 0 and 0 <= r <= m:
-            # Generate partitions based on the cosets of the Reed-Muller code
-            # This is a simplified approach - actual implementation would be more involved
+            from itertools import combinations
 
-            # For each information bit
-            for i in range(self.code_dimension):
-                # Create a partition for this bit
-                partition = []
-
-                # In a real implementation, these would be carefully constructed
-                # based on the algebraic structure of Reed-Muller codes
-                for j in range(2 ** (m - 1)):
-                    # Create groups of positions that form checks for this bit
-                    positions = []
-                    for offset in range(2**r):
-                        pos = (j * 2**r + offset) % self.code_length
-                        positions.append(pos)
-
-                    # Convert to tensor
-                    partition.append(torch.tensor(positions, dtype=torch.long))
-
-                partitions.append(partition)
+            for ell in range(r, -1, -1):
+                for indices in combinations(range(m), ell):
+                    own_bits = [m - 1 - i for i in indices]
+                    other_bits = [b for b in range(m) if b not in own_bits]
+                    within = [sum(1 << b for k, b in enumerate(own_bits) if (s >> k) & 1) for s in range(2**ell)]
+                    offsets = [sum(1 << b for k, b in enumerate(other_bits) if (q >> k) & 1) for q in range(2 ** (m - ell))]
+                    partitions.append([torch.tensor([q + s for s in within], dtype=torch.long) for q in offsets])
 
         return partitions
 
@@ -236,96 +227,40 @@ class ReedMullerDecoder(BaseBlockDecoder[ReedMullerCodeEncoder]):
 
         # Process blockwise
         def decode_block(r_block):
-            batch_size = r_block.shape[0]
+            # r_block has shape (..., blocks, code_length): every block of every row is one received word
+            block_shape = r_block.shape[:-1]
+            words = r_block.reshape(-1, self.code_length)
+            batch_size = words.shape[0]
             decoded = torch.zeros(batch_size, self.code_dimension, dtype=torch.int, device=received.device)
-            errors = torch.zeros_like(r_block) if return_errors else None
+            errors = torch.zeros_like(words) if return_errors else None
 
             for i in range(batch_size):
-                # Get the current received word - ensure it's a 1D tensor
-                if r_block.dim() == 3:  # Handle the case when r_block has shape [batch, 1, code_length]
-                    r = r_block[i, 0, :]
-                else:  # Handle the case when r_block has shape [batch, code_length]
-                    r = r_block[i, :]
+                r = words[i]
 
-                """
-                # Convert to binary for hard decoding or compute hard decisions for soft decoding
-                if self.input_type == "hard":
-                    bx = r.clone()
-                else:  # self.input_type == "soft"
-                    bx = (r < 0).to(torch.int)
-                """
-
-                # Decode using Reed algorithm
+                # Decode with the Reed algorithm: message bits are decided in generator-row order (highest
+                # order first) by a majority vote over their check sums, and every decided row is removed
+                # from the working word before the lower orders are decided.
                 u_hat = torch.zeros(self.code_dimension, dtype=torch.int, device=received.device)
+                generator = self.encoder.generator_matrix.to(device=received.device, dtype=torch.int)
+                if self.input_type == "hard":
+                    working = r.to(torch.int) % 2
+                    reliabilities = None
+                else:  # soft input: positive values mean bit 0, negative values bit 1
+                    working = (r < 0).to(torch.int)
+                    reliabilities = torch.abs(r)
 
-                # Process each bit position using its corresponding partition
                 for j, partition in enumerate(self._reed_partitions):
-                    if j >= self.code_dimension:
-                        break
-
-                    # For hard decision decoding
-                    if self.input_type == "hard":
-                        # Calculate checksums for each group in the partition
-                        checksums = []
-                        for group in partition:
-                            # Ensure the group indices are valid
-                            valid_indices = group[group < r.shape[0]]
-                            if len(valid_indices) == 0:
-                                continue
-
-                            # Take relevant positions and compute parity
-                            # Use indexing to select elements from the 1D tensor
-                            group_bits = r[valid_indices].to(torch.int)
-                            checksum = torch.sum(group_bits) % 2
-                            checksums.append(checksum.item())  # Use .item() to convert tensor to scalar
-
-                        # Skip if no valid checksums
-                        if not checksums:
-                            continue
-
-                        # Convert to tensor
-                        checksums = torch.tensor(checksums, device=received.device)
-
-                        # Make majority decision
-                        u_hat[j] = (torch.sum(checksums) > len(checksums) // 2).to(torch.int)
-
-                    # For soft decision decoding
-                    else:  # self.input_type == "soft"
-                        # Calculate checksums and minimum reliabilities for each group
-                        checksums = []
-                        min_reliabilities = []
-
-                        for group in partition:
-                            # Ensure the group indices are valid
-                            valid_indices = group[group < r.shape[0]]
-                            if len(valid_indices) == 0:
-                                continue
-
-                            # Take relevant positions
-                            group_bits = (r[valid_indices] < 0).to(torch.int)
-                            group_reliabilities = torch.abs(r[valid_indices])
-
-                            # Compute parity of hard decisions
-                            checksum = torch.sum(group_bits) % 2
-                            checksums.append(checksum.item())  # Use .item() to convert tensor to scalar
-
-                            # Find minimum reliability in this group
-                            min_reliability = torch.min(group_reliabilities)
-                            min_reliabilities.append(min_reliability.item())  # Use .item() to convert tensor to scalar
-
-                        # Skip if no valid checksums
-                        if not checksums:
-                            continue
-
-                        # Convert to tensors
-                        checksums = torch.tensor(checksums, device=received.device)
-                        min_reliabilities = torch.tensor(min_reliabilities, device=received.device)
-
-                        # Calculate decision variable
-                        decision_var = torch.sum((1 - 2 * checksums) * min_reliabilities)
-
-                        # Make decision
-                        u_hat[j] = (decision_var < 0).to(torch.int)
+                    groups = torch.stack(partition).to(received.device)  # (number of check sums, group size)
+                    checksums = working[groups].sum(dim=1) % 2
+                    if reliabilities is None:
+                        # Majority decision
+                        u_hat[j] = (2 * checksums.sum() > checksums.numel()).to(torch.int)
+                    else:
+                        # Each check sum votes with the reliability of its least reliable member
+                        weights = reliabilities[groups].min(dim=1).values
+                        u_hat[j] = (torch.sum((1 - 2 * checksums) * weights) < 0).to(torch.int)
+                    if u_hat[j]:
+                        working = (working + generator[j]) % 2
 
                 # Store the decoded message
                 decoded[i] = u_hat
@@ -336,7 +271,10 @@ class ReedMullerDecoder(BaseBlockDecoder[ReedMullerCodeEncoder]):
                     correct_codeword = self.encoder(u_hat.float().unsqueeze(0)).squeeze(0)
                     errors[i] = (r.to(torch.int) != correct_codeword.to(torch.int)).to(torch.int)
 
-            return (decoded, errors) if return_errors else decoded
+            decoded = decoded.reshape(*block_shape, self.code_dimension)
+            if return_errors:
+                return decoded, errors.reshape(*block_shape, self.code_length)
+            return decoded
 
         # Apply decoding blockwise
         return apply_blockwise(received, self.code_length, decode_block)
